@@ -33,7 +33,8 @@ SourceEmit ==
              /\ stream' = Append(stream, it)
              /\ srcInTxn' = (it.k = "multi")
      \/ /\ srcInTxn
-        /\ \E it \in {[k |-> "cmd", d |-> 0], [k |-> "exec", d |-> 0]} :
+        \* (a source transaction that touches two databases carries the SELECT inside the group)
+        /\ \E it \in {[k |-> "cmd", d |-> 0], [k |-> "exec", d |-> 0]} \cup {[k |-> "sel", d |-> x] : x \in DBs} :
              /\ stream' = Append(stream, it)
              /\ srcInTxn' = (it.k # "exec")
   /\ UNCHANGED <<running, crashes, fullResync, hadGood, startOff, startDb, ppos, pcurDB, bypass,
@@ -46,6 +47,12 @@ SrcDbAt(o) == IF o = 0 THEN 0 ELSE IF stream[o].k = "sel" THEN stream[o].d ELSE 
 RECURSIVE InSrcTxnAt(_)   \* TRUE iff offset o lies strictly inside MULTI..EXEC
 InSrcTxnAt(o) == IF o = 0 THEN FALSE ELSE IF stream[o].k = "multi" THEN TRUE
                  ELSE IF stream[o].k = "exec" THEN FALSE ELSE InSrcTxnAt(o - 1)
+\* the MULTI that opened the transaction offset o lies in (0 = none)
+RECURSIVE OpenMultiAt(_)
+OpenMultiAt(o) == IF o = 0 THEN 0 ELSE IF stream[o].k = "multi" THEN o ELSE IF stream[o].k = "exec" THEN 0 ELSE OpenMultiAt(o - 1)
+\* a bracket read while a configured-out database is selected is dropped with the rest of that database's traffic, so the
+\* tool never learns of that transaction: only transactions whose MULTI it forwards are transactions to it
+SeenTxnAt(o) == OpenMultiAt(o) # 0 /\ SrcDbAt(OpenMultiAt(o)) \notin Blacklist
 IsData(i) == stream[i].k = "cmd" /\ SrcDbAt(i) \notin Blacklist
 DataIdx == {i \in 1..Len(stream) : IsData(i)}
 
@@ -241,7 +248,7 @@ ResumeDbs == {d \in DBs : cpOff[d] = MaxCp}
 C02_CpCovers == (MaxCp >= 0 /\ MaxCp <= Len(stream)) =>
    /\ \A i \in DataIdx : i <= MaxCp => Applied(i)
    /\ \A d \in ResumeDbs : cpRun[d] => d = Map(SrcDbAt(MaxCp)) \/ SrcDbAt(MaxCp) \in Blacklist
-   /\ TxnMode => ~InSrcTxnAt(MaxCp)
+   /\ TxnMode => ~SeenTxnAt(MaxCp)
 C02_NoRepeatTxn == TxnMode => \A j1, j2 \in 1..Len(log) : j1 # j2 => log[j1].i # log[j2].i
 \* C07
 C07_Values == ~cpWrites[2]
@@ -249,7 +256,11 @@ C07_Monotone == ~cpWrites[3]
 C07_NoNeedlessFull == ~(fullResync /\ hadGood)
 \* C09: a source transaction is in one target block
 GroupOf(i) == CHOOSE m \in 1..i : stream[m].k = "multi" /\ \A x \in (m+1)..i : stream[x].k # "multi"
-InGroup(i) == InSrcTxnAt(i) /\ stream[i].k = "cmd"
+InGroup(i) == SeenTxnAt(i) /\ stream[i].k = "cmd"
+\* Known finding (C09, recorded in known_findings.json): TLC refutes the same two formulas with InSrcTxnAt in place of
+\* SeenTxnAt when Blacklist # {} - SELECT 1 (configured out), MULTI (dropped with it), SELECT 0, a tick: the position of
+\* the SELECT is stored inside the source transaction, and the rest of the group is flushed like plain commands.
+C09_AnyTxn_NoPositionInside == TxnMode /\ MaxCp >= 0 /\ MaxCp <= Len(stream) => ~InSrcTxnAt(MaxCp)
 C09_Atomic == TxnMode =>
    \A j1, j2 \in 1..Len(log) :
       (InGroup(log[j1].i) /\ InGroup(log[j2].i) /\ GroupOf(log[j1].i) = GroupOf(log[j2].i)) => log[j1].blk = log[j2].blk
